@@ -1,4 +1,5 @@
 import FrappyProofs.Lemmas.Match
+import FrappyProofs.Lemmas.MatchAcc
 import FrappyProofs.Lemmas.Timed
 import FrappyProofs.Lemmas.Shutdown
 import FrappyModel.Generated.C11
@@ -138,6 +139,45 @@ theorem no_parking_unlocked_fails :
 
 /-- the repaired client cannot take that path: `rxMatch` is not enabled while the tx thread holds the lock -/
 theorem traceF19_refused : refusedAt request2reply true traceF19 = some 10 := by
+  decide +kernel
+
+/-! ## no_lost_request -/
+
+section
+variable {α : Type} [DecidableEq α]
+
+/-- No request is lost, and `active_requests` never holds two entries under one key: in every reachable state of the
+repaired client every request a caller has queued is still queued, held by the tx thread, parked, filed, popped by the
+rx thread (about to be delivered or requeued) or taken by a `disconnect` — or its caller has been answered, released
+or has run into its time-out.  In particular the clean-up of a timed-out request removes that request only (the
+rx thread searches `active_requests` by identity), never the request of another caller filed under the same key.
+Any table, any number of callers, any interleaving. -/
+theorem no_lost_request (tbl : List (α × α)) (s : St α) (h : Reachable tbl true s) :
+    NoLostRequest s ∧ (s.active.map (·.1)).Nodup :=
+  ⟨(reachable_acc h).acc, (reachable_acc h).nodup⟩
+
+end
+
+/-- non-vacuity: request 0 is filed and never answered, request 1 (same key) is parked behind it; 0 times out, the
+clean-up removes 0 — and only 0 — and requeues 1, which is then transmitted -/
+example : checkRun request2reply true
+    [.put (rd "m:p"), .put (rd "m:p"), .txGet, .txTest false, .txApply, .txSend, .txGet, .txTest true, .txApply,
+     .timeout 0, .rxCleanPop, .rxCleanup (some 0) [1], .rxRequeue, .txGet, .txTest false, .txApply, .txSend]
+    (fun s => noLostB s && s.nextId == 2 && s.active.map (·.2.id) == [1] && s.timedOut == [0]
+      && s.wireOut.map (·.id) == [0, 1]) = true := by
+  decide +kernel
+
+/-- what the monitor sees when a clean-up goes by key instead of by identity: request 0 times out, its late reply is
+still handed over, request 1 (same key) is filed, and then the clean-up of 0 pops the entry of 1.  The model refuses
+that label (index 16), and in the observed state after it request 1 is lost: nowhere in the client, its caller still
+waiting. -/
+def traceCleanupByKey : List (Label String) :=
+  [.put (rd "m:p"), .txGet, .txTest false, .txApply, .txSend, .timeout 0,
+   .peerEmit false "reply" (some "m:p") false (some 0), .rxRead, .rxMatch (some 0) [], .rxSetEvent,
+   .put (rd "m:p"), .txGet, .txTest false, .txApply, .txSend, .rxCleanPop, .rxCleanup (some 1) []]
+
+example : refusedAt request2reply true traceCleanupByKey = some 16
+    ∧ firstLost (observe request2reply {} traceCleanupByKey) 0 = some 17 := by
   decide +kernel
 
 /-! ## disconnect_releases_all -/
